@@ -243,6 +243,79 @@ example : ∃ c', advanceFrame witSrvClose = (.error (.close 1001 [0x62, 0x79, 0
 /-- evaluated: the server's close echo is unmasked and carries the code 1001 -/
 example : (advanceFrame witSrvClose).2.w.wire = [0x88, 0x02, 0x03, 0xE9] := by decide
 
+/-- a SERVER connection (default handlers), reader idle after one ping; pending: a masked close frame WITHOUT
+    a body (header 88 80 and the key 37 fa 21 3d; the key bytes arrive in a second transport chunk), then one
+    stray byte -/
+def witSrvEmptyClose : Conn :=
+  { w := newW true 4096 false false,
+    r := { isServer := true, nego := false, hlog := [.ping [0x70]],
+           buf := { size := 4096, buf := (PFrame.enc true ⟨8, true, ⟨0x37, 0xfa, 0x21, 0x3d⟩, []⟩).take 3,
+                    t := { chunks := [(PFrame.enc true ⟨8, true, ⟨0x37, 0xfa, 0x21, 0x3d⟩, []⟩).drop 3 ++ [0xAA]] },
+                    total := 7 } } }
+
+def witSrvEmptyClose_atBoundary : AtBoundary witSrvEmptyClose :=
+  ⟨rfl, rfl, ⟨by decide, by decide, by decide, (by intro e h; cases h)⟩, by decide⟩
+
+example : witSrvEmptyClose.r.buf.pending = [0x88, 0x80, 0x37, 0xfa, 0x21, 0x3d, 0xAA] := by decide
+
+/-- non-vacuity of `empty_close_is_1005`: all hypotheses hold for the server reader `witSrvEmptyClose` -/
+example : ∃ c', advanceFrame witSrvEmptyClose = (.error (.close 1005 []), c') ∧
+      c'.r.hlog = witSrvEmptyClose.r.hlog ++ [.close 1005 []] ∧
+      c'.w.writeErr = some .closeSent ∧ witSrvEmptyClose.w.wire.length < c'.w.wire.length :=
+  empty_close_is_1005 witSrvEmptyClose witSrvEmptyClose_atBoundary ⟨rfl, rfl⟩ rfl ⟨0x37, 0xfa, 0x21, 0x3d⟩ [0xAA] (by decide)
+
+/-- evaluated: the server's echo is an unmasked close frame with an EMPTY body (1005 is never put on the
+    wire), the handler saw (1005, ""), and the stray byte is still pending -/
+example : (advanceFrame witSrvEmptyClose).2.w.wire = [0x88, 0x00] ∧
+    (advanceFrame witSrvEmptyClose).2.r.hlog = [.ping [0x70], .close 1005 []] ∧
+    (advanceFrame witSrvEmptyClose).2.r.buf.pending = [0xAA] := by decide
+
+/-- the same empty close frame towards a CLIENT reader (unmasked: 88 00), mid-message; its echo is masked with
+    the first key of the key source -/
+def witCliEmptyClose : Conn :=
+  { w := { newW false 4096 false false with keys := [1, 2, 3, 4, 5, 6, 7, 8] },
+    r := { isServer := false, nego := false, final := false, length := 3, msgReader := some 0, nextId := 1,
+           buf := { size := 4096, buf := [0x88], t := { chunks := [[0x00, 0x81], [0x01, 0x41]] }, total := 5 } } }
+
+example : ∃ c', advanceFrame witCliEmptyClose = (.error (.close 1005 []), c') ∧
+      c'.r.hlog = witCliEmptyClose.r.hlog ++ [.close 1005 []] ∧
+      c'.w.writeErr = some .closeSent ∧ witCliEmptyClose.w.wire.length < c'.w.wire.length :=
+  empty_close_is_1005 witCliEmptyClose ⟨rfl, rfl, ⟨by decide, by decide, by decide, (by intro e h; cases h)⟩, by decide⟩
+    ⟨rfl, rfl⟩ rfl ⟨0, 0, 0, 0⟩ [0x81, 0x01, 0x41] (by decide)
+
+example : (advanceFrame witCliEmptyClose).2.w.wire = [0x88, 0x80, 1, 2, 3, 4] := by decide
+
+/-- a SERVER connection whose application ping handler returns error 7, reader idle (one pong handled so far,
+    no failed call yet); pending: a masked ping "hi" (key a0 b0 c0 d0, split over buffer and transport), then a
+    masked text frame "A" -/
+def witFailPing : Conn :=
+  { w := newW true 4096 false false,
+    r := { isServer := true, nego := false, hPing := .fail 7, hlog := [.pong [9]],
+           buf := { size := 4096, buf := (PFrame.enc true ⟨9, true, ⟨0xa0, 0xb0, 0xc0, 0xd0⟩, [0x68, 0x69]⟩).take 5,
+                    t := { chunks := [(PFrame.enc true ⟨9, true, ⟨0xa0, 0xb0, 0xc0, 0xd0⟩, [0x68, 0x69]⟩).drop 5 ++ [0x81, 0x81, 1],
+                                      [2, 3, 4, 0x41 ^^^ 1]] },
+                    total := 15 } } }
+
+def witFailPing_idle : WS.AuditGaps.ReaderIdle' witFailPing :=
+  ⟨rfl, rfl, rfl, ⟨by decide, by decide, by decide, (by intro e h; cases h)⟩, by decide, by decide⟩
+
+example : witFailPing.r.buf.pending =
+    [0x89, 0x82, 0xa0, 0xb0, 0xc0, 0xd0, 0x68 ^^^ 0xa0, 0x69 ^^^ 0xb0, 0x81, 0x81, 1, 2, 3, 4, 0x41 ^^^ 1] := by decide
+
+/-- non-vacuity of `failing_handler_error_returned`: all hypotheses hold for `witFailPing`, handler error 7,
+    ping "hi", a text frame behind it -/
+example : ∃ c', nextReader witFailPing = (.err (.handler 7), c') ∧ c'.r.readErr = some (.handler 7) ∧
+      c'.r.hlog = witFailPing.r.hlog ++ [.ping [0x68, 0x69]] ∧ c'.w.wire = witFailPing.w.wire :=
+  failing_handler_error_returned witFailPing witFailPing_idle 7 rfl ⟨0xa0, 0xb0, 0xc0, 0xd0⟩ [0x68, 0x69]
+    [0x81, 0x81, 1, 2, 3, 4, 0x41 ^^^ 1] (by decide) rfl (by decide)
+
+/-- evaluated: NextReader latches the handler's error, the handler saw the unmasked "hi" once, no pong (nothing
+    at all) was written, and the text frame behind the ping was not touched -/
+example : (nextReader witFailPing).2.r.readErr = some (.handler 7) ∧
+    (nextReader witFailPing).2.r.hlog = [.pong [9], .ping [0x68, 0x69]] ∧
+    (nextReader witFailPing).2.w.wire = [] ∧ (nextReader witFailPing).2.w.writeErr = none ∧
+    (nextReader witFailPing).2.r.buf.pending = [0x81, 0x81, 1, 2, 3, 4, 0x41 ^^^ 1] := by decide
+
 end NonVacuity
 
 end WS.Props.C08
